@@ -20,6 +20,7 @@ LEVEL_TEXT = ("exhaustive enumeration of every minVersion/maxVersion-annotated s
 ASSUMPTIONS = [
     "oracle: mcf/schemaeval.prune (recurses through objects and lists) + own Draft-4 evaluator, cross-checked with jsonschema on my schema",
     "exported schema compared after JSON normalisation (json.dumps sort_keys)",
+    "a minVersion/maxVersion annotation written next to a $ref counts as an annotation of that keyword / alternative",
 ]
 
 EPS = 0.1
